@@ -309,7 +309,22 @@ def run_check(prop, tier, seed, replay=None):
         else:
             impl, model, crashed = C.run_both(hbin, ops, pid)
         evaluations = len(ops)
-        for idx, (op, il, ml) in enumerate(zip(ops, impl, model)):
+        impl_died = [c for c in crashed if c[0] == "impl"]
+        if impl_died:
+            # the harness process died or hung: that is the finding; the lines behind the operation
+            # responsible were never evaluated, so nothing else is compared in this run
+            for c in impl_died:
+                for cop in (c[6] if len(c) > 6 else []):
+                    vv = Violation("relation", cop, "crash rc=%s" % c[2], None,
+                                   "the harness process died or hung (abort / stack overflow / endless loop) while evaluating this operation")
+                    vv.final = True
+                    violations.append(vv)
+            if not violations:
+                vv = Violation("relation", "shard %d" % impl_died[0][1], "crash rc=%s" % impl_died[0][2], None,
+                               "the harness process died or hung while evaluating a shard; the operation responsible could not be isolated")
+                vv.final = True
+                violations.append(vv)
+        for idx, (op, il, ml) in enumerate(zip(ops, impl, model) if not impl_died else []):
             name = op.split(" ", 1)[0]
             hist[name] = hist.get(name, 0) + 1
             hk = il.split(" ", 2)
@@ -340,7 +355,7 @@ def run_check(prop, tier, seed, replay=None):
             if len(samples) < 6 and idx % max(1, len(ops) // 6) == 0:
                 samples.append({"op": op[:200], "impl": il[:240]})
         try:
-            for v in prop.relation(ops, impl):
+            for v in (prop.relation(ops, impl) if not impl_died else []):
                 violations.append(v)
         except Exception as e:
             if not replay:
@@ -354,16 +369,15 @@ def run_check(prop, tier, seed, replay=None):
         if hasattr(prop, "nontrivial_all") and not replay:
             nontriv |= set(prop.nontrivial_all(ops, impl))
         for c in crashed:
-            notes.append("evaluator crash: %r" % (c,))
+            notes.append("evaluator crash: %r" % (c[:6],))
             if c[0] == "impl":
-                violations.append(Violation("relation", "shard %d" % c[1], "crash rc=%s" % c[2], None,
-                                            "the harness process died while evaluating a shard (abort / stack overflow)"))
+                pass
             else:
                 proof_ok = False
                 proof_problem = proof_problem or "model driver crashed: %r" % (c,)
         # the same operations through a build of the harness with another profile
         # (C03: overflow checks off); any difference in observable behaviour is a violation
-        for prof in getattr(prop, "extra_profiles", []):
+        for prof in (getattr(prop, "extra_profiles", []) if not impl_died else []):
             hb2, log2 = C.build_harness(prof)
             if hb2 is None:
                 proof_ok = False
@@ -380,7 +394,7 @@ def run_check(prop, tier, seed, replay=None):
                 violations.append(v)
             notes.append("profile %s: %d operations re-evaluated" % (prof, len(impl2)))
         # in-process sweeps (relation at scale, no model involved)
-        if not replay:
+        if not replay and not impl_died:
             for args in prop.sweeps(tier):
                 import subprocess
                 p = subprocess.run([hbin, "sweep"] + [str(a) for a in args], capture_output=True, text=True)
@@ -439,14 +453,15 @@ def run_check(prop, tier, seed, replay=None):
         unexplained.sort(key=lambda u: len(u.key))
         v = unexplained[0]
         if hbin is not None and os.path.exists(C.DRIVER_BIN):
-            try:
-                v = with_history(prop, hbin, v, ops if not replay else [])
-            except Exception as e:
-                notes.append("history search failed: %r" % e)
-            try:
-                v = shrink_bytes_op(prop, hbin, v)
-            except Exception as e:  # shrinking is best effort
-                notes.append("shrink failed: %r" % e)
+            if not getattr(v, "final", False):
+                try:
+                    v = with_history(prop, hbin, v, ops if not replay else [])
+                except Exception as e:
+                    notes.append("history search failed: %r" % e)
+                try:
+                    v = shrink_bytes_op(prop, hbin, v)
+                except Exception as e:  # shrinking is best effort
+                    notes.append("shrink failed: %r" % e)
         path = write_replay(pid, v, seed, theorem=(prop.required[0] if prop.required else None))
         out_lines.append("VIOLATION property=%s replay=%s" % (pid, path))
         for n_, u in enumerate(unexplained[1:5]):
